@@ -889,6 +889,10 @@ def call_method(P, recv, name, args, kwargs):
 
 def value_getattr(P, o, name):
     if isinstance(o, SymSet) or isinstance(o, (set, frozenset, dict, list, tuple, str, SStr, SSeq, SMap)):
+        pytype = (str if isinstance(o, (str, SStr)) else dict if isinstance(o, (dict, SMap)) else set if isinstance(o, (set, SymSet)) else
+                  frozenset if isinstance(o, frozenset) else tuple if isinstance(o, tuple) or (isinstance(o, SSeq) and o.kind == "tuple") else list)
+        if not hasattr(pytype, name):
+            raise _pyexc(P, "AttributeError", f"'{pytype.__name__}' object has no attribute '{name}'")
         return BoundMethod(o, lambda P_, s, a, k, _n=name: call_method(P_, s, _n, a, k))
     if isinstance(o, Opaque):
         hook = P.opaque_hooks.get(f"opaque:{o.tag}.{name}")
@@ -1398,6 +1402,8 @@ def external(P, full):
         return Builtin(full, lambda P_, a, k: a[1])
     if full == "collections.deque":
         return ClassRef("collections.deque")
+    if full == "collections.defaultdict":
+        return Builtin(full, lambda P_, a, k: {})      # default factory not modelled: missing keys raise KeyError (undecided if the code relies on it)
     if full.startswith("typing.") or full.startswith("collections.abc."):
         return ClassRef(full.split(".")[-1])
     if full == "warnings.warn":
